@@ -194,7 +194,21 @@ EXTRA_OPS = {
     'rlen': lambda c, *a: len(c.keys(*a)),
     'rindex': lambda c, i, *a: c.keys(*a)[i],
     'rslice': lambda c, i, j, *a: list(c.keys(*a)[i:j]),
+    # ONE lazy sequence object indexed in a non-monotonic order (the cursor
+    # moves right and LEFT across leaf boundaries)
+    'rwalk': lambda c, idxs, *a: _walk(c.keys(*a), idxs),
+    'rwalk_items': lambda c, idxs, *a: _walk(c.items(*a), idxs),
 }
+
+
+def _walk(seq, idxs):
+    out = []
+    for i in idxs:
+        try:
+            out.append(seq[i])
+        except IndexError:
+            out.append('IndexError')
+    return out
 
 
 def _listing(r):
@@ -318,8 +332,16 @@ def range_call(rng, w, present, universe, is_mapping, is_tree):
     if is_mapping:
         ops += ['rvalues', 'ritems', 'riter']
     if is_tree:
-        ops += ['rlen', 'rindex', 'rslice']
+        ops += ['rlen', 'rindex', 'rslice', 'rwalk', 'rwalk']
+        if is_mapping:
+            ops += ['rwalk_items']
     op = rng.choice(ops)
+    if op in ('rwalk', 'rwalk_items'):
+        n_ = max(1, len(present))
+        idxs = [rng.randint(-n_ - 1, n_) for _ in range(rng.randint(2, 6))]
+        if rng.random() < .5:
+            idxs = sorted(idxs, reverse=True)     # right to left
+        return op, (tuple(idxs),) + args
     if op == 'rindex':
         return op, (rng.randint(-3, 6),) + args
     if op == 'rslice':
